@@ -45,7 +45,11 @@ MANIFEST = {
             "expressions / diagonal predicates / key, state-write, seed-callable and engine-site tables (bridge lemmas) and by "
             "exact differential replay on the reconstructed libc stream, the recorded rng.choice draws, torch's float32 product, "
             "call histories on persistent objects (driver op `hist` = runHist), two interpreters with different "
-            "PYTHONHASHSEED, and the real engines' training step / forward functions.",
+            "PYTHONHASHSEED, and the real engines' training step / forward functions. Memory-layout ladder (oracle + "
+            "correspondence, not a Lean theorem): every splitter x split_method / forward / pipeline stage is also run on the same "
+            "logical mask / ACS mask / k-space as transposed (H/W strides swapped), strided slice of a larger tensor, expanded "
+            "(stride 0) and fully permuted storage; all judgements and the model comparison apply unchanged, seeded answers must "
+            "equal the contiguous twin's exactly (key layout-dependence:<splitter>) and the handed tensors must be unmodified.",
     "note": "Trusted: Lean kernel (+propext, Classical.choice, Quot.sound), the AST/.pyx translator (incl. the syntactic scan "
             "for state writes: assignments / subscripts / mutating method calls / setattr / global / memoising decorators / "
             "mutable defaults rooted at self, a class or a module name), libc rand and numpy RandomState as deterministic "
@@ -76,6 +80,8 @@ TRUSTED = [
     "object / class / module state is observed by a snapshot of instance dicts, class attributes of /repo classes in the MRO, "
     "module-level containers and lru caches of direct.ssl.ssl / mask_fillers (reported, not judged); the verdict is always "
     "on the returned masks against a fresh object",
+    "the worker's `relayout` builds the non-contiguous presentations (self-checked: shape, dtype, values equal the original); "
+    "unseeded layout cases have no contiguous twin (rng.seed(None) reads OS entropy) and rest on the judgements alone",
 ]
 ASSUMPTIONS = [
     "float32 sums xv ± yv keep the sign of the exact sum of the float32 coordinates (round-to-nearest, no underflow)",
@@ -85,6 +91,9 @@ ASSUMPTIONS = [
     "(measured, not proved)",
     "k-space entries are small integers (exact in float32)",
     "str(filename) / str(slice_no) are the same strings in every process (pathlib / int formatting is not salted)",
+    "memory layout: the Gaussian splitter raises ValueError ('ndarray is not C-contiguous', Cython int[:, ::1]) on masks whose "
+    "H/W strides are not row-major (transposed / permuted views); this loud rejection is reported as a note (FINDING, not judged) "
+    "— every returned answer on every layout is judged",
 ]
 RULE = ("masks: line / 2-D random / sparse / nearly empty / full, 6..40 rows and columns, odd/even, non-square; ratios "
         "0.05..0.95 (also ratio lists; 0, 1 and out-of-range ratios at the constructor); protected regions (0,0)..larger than "
@@ -237,8 +246,38 @@ def _worker_main():  # pragma: no cover - runs in the subprocess
             sp = S.HalfMaskSplitterModule(direction=as_form(S.HalfSplitType(case["dir"]), case.get("dir_form")), **kw)
         return sp, sp
 
+    def relayout(t, layout):
+        """the same logical tensor (shape, dtype, values) in another memory layout; H and W are dims -3 and -2"""
+        if layout in (None, "contiguous") or not isinstance(t, torch.Tensor) or t.dim() < 3:
+            return t
+        if layout == "transposed":        # strides of H and W swapped
+            r = t.transpose(-3, -2).contiguous().transpose(-3, -2)
+        elif layout == "strided":         # every other row / column of a larger tensor (other cells hold garbage)
+            shp = list(t.shape)
+            shp[-3], shp[-2] = 2 * shp[-3] + 1, 2 * shp[-2] + 1
+            big = torch.ones(shp, dtype=t.dtype) if t.dtype == torch.bool else torch.full(shp, 7.0, dtype=t.dtype)
+            r = big[..., 1::2, 1::2, :]
+            r.copy_(t)
+        elif layout == "expanded":        # stride 0 where legal: along H / W when the rows / columns are all equal, size-1 dims
+            r = t.contiguous()
+            if t.shape[-3] > 1 and bool((t == t[..., :1, :, :]).all()):
+                r = t[..., :1, :, :].contiguous().expand(t.shape)
+            elif t.shape[-2] > 1 and bool((t == t[..., :, :1, :]).all()):
+                r = t[..., :, :1, :].contiguous().expand(t.shape)
+            else:
+                r = torch.as_strided(r, r.shape, [0 if n == 1 else st for n, st in zip(r.shape, r.stride())])
+        elif layout == "permuted":        # channels-last-like: storage order of all dims reversed (last dim outermost)
+            rev = list(range(t.dim()))[::-1]
+            r = t.permute(rev).contiguous().permute(rev)
+        else:
+            raise RuntimeError(f"unknown layout {layout!r}")
+        if r.shape != t.shape or r.dtype != t.dtype or not torch.equal(r, t):
+            raise RuntimeError(f"harness: relayout({layout}) changed the logical tensor")
+        return r
+
     def run_once(case, perturb):
         call, sp = build(case)
+        layout = case.get("layout")
         sp.rng = RecRS()
         # different call histories must not matter when seeding is on
         np.random.seed(perturb % (2 ** 31))
@@ -256,12 +295,17 @@ def _worker_main():  # pragma: no cover - runs in the subprocess
         res: dict = {}
         if case["level"] == "split":
             seed = tuple(case["seed"]) if case["seed"] is not None else None
+            masks = [relayout(m, layout) for m in masks]
+            acss = [relayout(a_, layout) for a_ in acss] if acss is not None else None
+            before = [m.clone(memory_format=torch.contiguous_format) for m in masks[:1] + (acss[:1] if acss is not None else [])]
             if case.get("raw"):     # the documented rejection lives in the underscore methods
                 kw2 = {"std_scale": sp.std_scale} if case["kind"] == "gauss" else {}
                 fn = sp._gaussian_split if case["kind"] == "gauss" else sp._uniform_split
                 i, t = fn(masks[0].squeeze(), seed=seed, acs_mask=None, **kw2)
             else:
                 i, t = sp.split_method(masks[0], acss[0] if acss is not None else None, seed)
+            now = masks[:1] + (acss[:1] if acss is not None else [])
+            res["mutated"] = [n_ for n_, b_, a_ in zip(("sampling_mask", "acs_mask"), before, now) if not torch.equal(a_, b_)]
             res["shape"] = [list(i.shape), list(t.shape)]
             res["dtype"] = [str(i.dtype), str(t.dtype)]
             res["input"] = [[int(v) for v in i.reshape(-1).tolist()]]
@@ -278,7 +322,9 @@ def _worker_main():  # pragma: no cover - runs in the subprocess
                           "slice_no": case["slice_no"][0]}
                 if acss is not None:
                     sample["acs_mask"] = acss[0]
-            before = {k_: v.clone() for k_, v in sample.items() if isinstance(v, torch.Tensor)}
+            sample = {k_: relayout(v, layout) for k_, v in sample.items()}
+            res["strides"] = {skey(k_): list(v.stride()) for k_, v in sample.items() if isinstance(v, torch.Tensor)}
+            before = {k_: v.clone(memory_format=torch.contiguous_format) for k_, v in sample.items() if isinstance(v, torch.Tensor)}
             handed = dict(sample)
             out = call(sample)
             res["mutated"] = sorted(skey(k_) for k_, v in before.items() if handed[k_].shape != v.shape or not torch.equal(handed[k_], v))
@@ -726,6 +772,14 @@ def _worker_main():  # pragma: no cover - runs in the subprocess
                 res["enum_ref"] = {"ok": True, "input": rr["input"], "target": rr["target"]}
             except Exception as e:  # noqa: BLE001
                 res["enum_ref"] = {"ok": False, "err": f"{type(e).__name__}: {e}"[:200]}
+        if (case.get("layout") not in (None, "contiguous") and case["level"] in ("split", "forward", "pipeline")
+                and (case.get("use_seed") or case.get("kind") == "half")):
+            # the same call on the same logical tensors in contiguous memory (same ambient RNG state): must be the same answer
+            try:
+                rr = run_once({k: v for k, v in case.items() if k != "layout"}, int(case.get("perturb", 1)))
+                res["layout_ref"] = {"ok": True, **{k: rr.get(k) for k in ("input", "target", "ink", "tgk", "shape", "dtype", "calls", "log")}}
+            except Exception as e:  # noqa: BLE001
+                res["layout_ref"] = {"ok": False, "err": type(e).__name__, "msg": str(e)[:200]}
         if case.get("twice"):
             try:
                 r2 = run_once(case, int(case.get("perturb", 1)) * 7919 + 13)
@@ -1689,7 +1743,58 @@ def _protocol(case, res):
 
 # ==================================================================================================
 # the property, stated on what the implementation returned
+LAYOUTS = ["transposed", "strided", "expanded", "permuted"]     # besides "contiguous": see `relayout` in the worker
+
+
+def _layout_diff(case, res):
+    """-> description when the answer on a non-contiguous presentation of the same logical tensors differs from the answer on
+    contiguous ones (same seeds, same ambient RNG state), else None"""
+    ref = res.get("layout_ref")
+    if ref is None or res.get("err") == "Timeout":
+        return None
+    lay = case.get("layout")
+    if bool(res.get("ok")) != bool(ref.get("ok")):
+        bad, side = (ref, "contiguous") if res.get("ok") else (res, lay)
+        return f"the call returns on one memory layout and raises {bad.get('err')} ({str(bad.get('msg'))[:100]}) on the {side} one"
+    if not res.get("ok"):
+        return None if res.get("err") == ref.get("err") else f"raises {res.get('err')} on {lay}, {ref.get('err')} on contiguous tensors"
+    for k, name in (("shape", "shapes"), ("dtype", "dtypes"), ("target", "target masks"), ("input", "input masks"),
+                    ("tgk", "target k-spaces"), ("ink", "input k-spaces"), ("calls", "arguments handed to the Gaussian kernel"),
+                    ("log", "draws asked of the RandomState")):
+        if ref.get(k) is not None and res.get(k) != ref.get(k):
+            extra = ""
+            if k in ("target", "input"):
+                extra = (f" ({[sum(x) for x in res[k]]} cells on the {lay} layout, {[sum(x) for x in ref[k]]} on contiguous "
+                         f"tensors, of {[sum(m) for m in case['masks']]} sampled)")
+            return f"the {name} differ{extra}"
+    return None
+
+
+_LAYOUT_REJECTED: list[dict] = []
+
+
+def _kernel_rejects_layout(case, res) -> bool:
+    """Gaussian split on a mask whose H/W strides are not row-major: `temp_mask.cpu().numpy().astype(int)` keeps the strides and
+    the Cython kernel's `int[:, ::1]` argument refuses the array (ValueError 'ndarray is not C-contiguous').  A loud rejection
+    of a memory layout, not a wrong split: reported (note + lead), not judged — the quantifier ranges over mask values."""
+    return bool(case.get("layout") and case["kind"] == "gauss" and not res.get("ok") and res.get("err") == "ValueError"
+                and "C-contiguous" in str(res.get("msg")) and (res.get("layout_ref") or {"ok": True}).get("ok"))
+
+
 def _check(case, res):
+    """yield (key, what) for every way `res` violates the property (any memory layout of the tensors handed over)"""
+    if _kernel_rejects_layout(case, res):
+        _LAYOUT_REJECTED.append(case)
+        return
+    d = _layout_diff(case, res)
+    if d is not None:
+        yield (f"layout-dependence:{case['kind']}",
+               f"{case['kind']} {case['level']}: the same logical sampling mask / ACS mask / k-space as a {case.get('layout')} view "
+               f"(values equal, strides {res.get('strides', {}).get('sampling_mask', '')}) and as contiguous tensors, same seeds: {d}")
+    yield from _check_base(case, res)
+
+
+def _check_base(case, res):
     """yield (key, what) for every way `res` violates the property"""
     kind, level = case["kind"], case["level"]
     H, W, B, C = case["nrow"], case["ncol"], case["B"], case["C"]
@@ -1949,6 +2054,32 @@ def _fixed_cases():
     return out
 
 
+def _layout_cases(rng, n, levels):
+    """memory-layout ladder: every splitter x level x layout, n cases each (masks with >= 6 free cells preferred)"""
+    out = []
+    for kind in ("gauss", "uniform", "half"):
+        for level in levels:
+            for lay in LAYOUTS:
+                for _ in range(n):
+                    c = _gen_case(rng, kind, level)
+                    seeded = rng.random() < 0.85     # unseeded: no contiguous twin to compare with, the judgements still apply
+                    for _try in range(8):
+                        if min(sum(_free(c, b)) for b in range(c["B"])) >= 6 and (c["use_seed"] or not seeded):
+                            break
+                        c = _gen_case(rng, kind, level)
+                    if lay == "expanded" and rng.random() < 0.7 and not c["acs"]:
+                        # stride 0 along H is legal exactly for line masks (all rows equal): the usual Cartesian sampling mask
+                        row = [1 if rng.random() < 0.6 else 0 for _ in range(c["ncol"])]
+                        c["masks"] = [list(row) * c["nrow"] for _ in range(c["B"])]
+                        c["mtype"] = "line"
+                        if "kspace" in c:
+                            c["kspace"] = [[v for _c in range(c["C"]) for on in c["masks"][b]
+                                            for v in (rng.randint(-4, 4) * on, rng.randint(1, 4) * on)] for b in range(c["B"])]
+                    c["layout"] = lay
+                    out.append(c)
+    return out
+
+
 def _malformed_cases(rng):
     """inputs the code must reject: keep_acs without an ACS mask"""
     out = []
@@ -1968,6 +2099,7 @@ def correspondence(ctx: Ctx):
     _W2.spawn()        # second interpreter (other hash salt) starts while the first one works
     cases = _fixed_cases() + _malformed_cases(rng) + [_gen_case(rng, kind, level) for kind, level in _plan(ctx)]
     cases += [_gen_slow_case(rng, ctx.thorough) for _ in range(ctx.budget(10, 80))]
+    cases += _layout_cases(rng, ctx.budget(1, 6), ("split", "forward"))
     for kind in ("gauss", "uniform", "half"):
         cases += [_gen_engine_case(rng, kind, 2) for _ in range(ctx.budget(8, 80))]
         cases += [_gen_engine_case(rng, kind, 3) for _ in range(ctx.budget(3, 30))]
@@ -2012,6 +2144,8 @@ def correspondence(ctx: Ctx):
                            "bucket": _bucket(case, res), "key": json.dumps([case, b], sort_keys=True)}
                 continue
             ln, ans, why = _protocol(case, res)
+            if _kernel_rejects_layout(case, res):
+                ln, why = None, "gaussian-kernel-rejects-noncontiguous-mask"
             if ln is None:
                 excluded[why] = excluded.get(why, 0) + 1
                 continue
@@ -2175,16 +2309,28 @@ def oracle(ctx: Ctx, deep: bool = False):
             c["a"] = [rng.randint(2, c["nrow"]), rng.randint(2, c["ncol"])]
             c["keep"], c["acs"] = 0, None
             extra.append(c)
+        extra += _layout_cases(rng, ctx.budget(2, 12) * (3 if deep else 1), ("split", "forward", "pipeline"))
         for case in extra:
             res = _W.call(case)
             if res.get("err") == "Skipped":
                 continue
             _histograms(ctx, case, res)
+            if case.get("layout"):
+                ctx.count(("layout", json.dumps(case, sort_keys=True)), bool(res.get("layout_ref", {}).get("ok")) and _nontrivial(case, res),
+                          bucket=f"oracle/layout/{case['kind']}/{case['level']}/{case['layout']}")
             ctx.count(json.dumps(case, sort_keys=True), _nontrivial(case, res), bucket="oracle/" + _bucket(case, res),
                       sample={"case": {k: case[k] for k in ("kind", "level", "nrow", "ncol", "a", "keep", "ratios")},
                               "ok": res.get("ok"), "target_cells": [sum(t) for t in res.get("target", [])] or res.get("target_cells")})
             yield from _violations(case, res, seen)
     finally:
+        if _LAYOUT_REJECTED:
+            c = _LAYOUT_REJECTED[0]
+            ctx.notes.append(f"FINDING (reported, not judged): Gaussian split raises ValueError 'ndarray is not C-contiguous' on "
+                             f"{len(_LAYOUT_REJECTED)} sampling masks handed over as {sorted({x['layout'] for x in _LAYOUT_REJECTED})} "
+                             f"views (the contiguous twin splits fine), e.g. {c['nrow']}x{c['ncol']} {c['mtype']} mask, level "
+                             f"{c['level']}, layout {c['layout']}: _gaussian_split hands temp_mask.cpu().numpy().astype(int) "
+                             "(strides kept) to a kernel typed int[:, ::1]")
+            del _LAYOUT_REJECTED[:]
         _W.close()
         _W2.close()
 
